@@ -7,6 +7,7 @@
 package main
 
 import (
+	"encoding/hex"
 	"fmt"
 	"math/big"
 	"sort"
@@ -112,16 +113,71 @@ type tracer struct {
 	lastStack []string // the stack (top first, at most 4 words) and its depth as the most recent step found it
 	lastDepth int
 	keepStack bool
+	frames    []*frameRec // depth-2 frames of a call tree (keepFrames)
+	keepFrames bool
+	inFrame   bool
 	stackLens []int
 	pcs       []uint64
 	faultPC   int64
 	faultErr  string
 }
 
+// frameRec: what a tracer sees of one child frame (CREATE init code or CALLed code): its own code and input, the gas it was
+// entered with, and its last step (halting instruction with the stack it found, memory range returned) or fault.
+type frameRec struct {
+	code, input  []byte
+	addr, caller common.Address
+	gasEntry     uint64
+	lastOp       vm.OpCode
+	lastGas      uint64
+	lastCost     uint64
+	depth        int
+	top          []string
+	ret          []byte
+	fault        string
+}
+
+func (t *tracer) frameStep(pc uint64, op vm.OpCode, gas, cost uint64, m *vm.Memory, st *vm.Stack, c *vm.Contract, depth int, err error) {
+	if depth != 2 {
+		t.inFrame = false
+		return
+	}
+	if !t.inFrame {
+		t.inFrame = true
+		t.frames = append(t.frames, &frameRec{code: append([]byte{}, c.Code...), input: append([]byte{}, c.Input...), addr: c.Address(),
+			caller: c.Caller(), gasEntry: gas})
+	}
+	f := t.frames[len(t.frames)-1]
+	if err != nil {
+		if f.fault == "" {
+			f.fault = failClass(err)
+		}
+		return
+	}
+	f.lastOp, f.lastGas, f.lastCost = op, gas, cost
+	d := st.Data()
+	f.depth = len(d)
+	f.top = f.top[:0]
+	for i := len(d) - 1; i >= 0 && i >= len(d)-4; i-- {
+		f.top = append(f.top, d[i].Text(16))
+	}
+	f.ret = nil
+	if (op == vm.RETURN || op == vm.REVERT) && len(d) >= 2 {
+		off, size := d[len(d)-1], d[len(d)-2]
+		if size.Sign() > 0 && off.IsUint64() && size.IsUint64() && off.Uint64()+size.Uint64() <= uint64(m.Len()) {
+			f.ret = append([]byte{}, m.Data()[off.Uint64():off.Uint64()+size.Uint64()]...)
+		}
+	}
+}
+
 func (t *tracer) CaptureStart(from common.Address, to common.Address, call bool, input []byte, gas uint64, value *big.Int) error {
 	return nil
 }
 func (t *tracer) CaptureState(e *vm.EVM, pc uint64, op vm.OpCode, gas, cost uint64, m *vm.Memory, st *vm.Stack, c *vm.Contract, depth int, err error) error {
+	if t.keepFrames {
+		t.frameStep(pc, op, gas, cost, m, st, c, depth, err)
+		return nil
+	}
 	if depth != 1 {
 		return nil
 	}
@@ -145,6 +201,12 @@ func (t *tracer) CaptureState(e *vm.EVM, pc uint64, op vm.OpCode, gas, cost uint
 	return nil
 }
 func (t *tracer) CaptureFault(e *vm.EVM, pc uint64, op vm.OpCode, gas, cost uint64, m *vm.Memory, st *vm.Stack, c *vm.Contract, depth int, err error) error {
+	if t.keepFrames {
+		if depth == 2 && t.inFrame && len(t.frames) > 0 && t.frames[len(t.frames)-1].fault == "" {
+			t.frames[len(t.frames)-1].fault = failClass(err)
+		}
+		return nil
+	}
 	if depth == 1 && t.faultPC < 0 {
 		t.faultPC = int64(pc)
 		if err != nil {
@@ -1314,5 +1376,185 @@ func main() {
 		}
 	}
 	lap("dop")
+	// ---- 8. live results against integer-pool traffic --------------------------------------------------------------------
+	// the result of every computational opcode stays on the stack while 2–4 pool-consuming instructions (PUSH, DUP, PC, MSIZE, ADD)
+	// run, then everything is combined and returned: a result that aliases a pooled big.Int is overwritten before it is read.
+	fast := []*big.Int{big.NewInt(0), big.NewInt(1), big.NewInt(2), big.NewInt(3), big.NewInt(31), big.NewInt(32), big.NewInt(255), big.NewInt(256),
+		pow2(255), add(two256, -1), new(big.Int).SetBytes(rng.Bytes(32))}
+	tails := [][]byte{
+		{0x60, 0x02, 0x60, 0x03, 0x01, 0x01},                         // PUSH1 2 PUSH1 3 ADD ADD
+		{0x58, 0x59, 0x80, 0x01, 0x01, 0x01},                         // PC MSIZE DUP1 ADD ADD ADD
+		{0x60, 0x07, 0x80, 0x58, 0x59, 0x01, 0x01, 0x01, 0x18},       // PUSH1 7 DUP1 PC MSIZE ADD ADD ADD XOR
+		{0x80, 0x60, 0x05, 0x60, 0x09, 0x02, 0x01, 0x18},             // DUP1 PUSH1 5 PUSH1 9 MUL ADD XOR
+		{0x61, 0x01, 0x00, 0x58, 0x5a, 0x50, 0x03, 0x90, 0x03},       // PUSH2 256 PC GAS POP SUB SWAP1 SUB
+	}
+	nLive := 0
+	doLive := func(op opDef, args []*big.Int) {
+		a := newAsm()
+		for i := len(args) - 1; i >= 0; i-- {
+			a.push(args[i])
+		}
+		a.op(op.code)
+		a.op(tails[nLive%len(tails)]...)
+		nLive++
+		a.pushN(0)
+		a.op(0x52)
+		retTail(a, 32)
+		emit("live:"+op.name, ep0, 100000, a.finish(), nil)
+	}
+	for _, op := range ops {
+		switch op.arity {
+		case 1:
+			for _, x := range fast {
+				doLive(op, []*big.Int{x})
+				doLive(op, []*big.Int{x})
+			}
+		case 2:
+			for _, x := range fast {
+				for _, y := range fast {
+					doLive(op, []*big.Int{x, y})
+					doLive(op, []*big.Int{x, y})
+				}
+			}
+		case 3:
+			for _, x := range fast[:4] {
+				for _, y := range fast[:4] {
+					for _, z := range []*big.Int{big.NewInt(0), big.NewInt(1), big.NewInt(2), add(two256, -1)} {
+						doLive(op, []*big.Int{x, y, z})
+					}
+				}
+			}
+		}
+	}
+	lap("live")
+	// ---- 9. call trees: a factory CREATEs several init codes and CALLs the deployed codes; every child frame is judged on its
+	// own code by the Spec interpreter (jump destinations of one code must not depend on another code of the same tree) ----
+	rt := rng.Fork(7)
+	jumpLayout := func(r *hx.Rng, a *asm, tail func(a *asm)) {
+		// PUSH2 <target> JUMP <layout of JUMPDESTs and PUSHn whose data contains 0x5b bytes> JUMPDEST <tail>
+		start := len(a.code)
+		a.op(0x61, 0, 0, 0x56)
+		L := 12 + r.Intn(16)
+		var cand []int
+		for len(a.code)-start-4 < L {
+			switch r.Intn(3) {
+			case 0:
+				cand = append(cand, len(a.code))
+				a.op(0x5b)
+			default:
+				n := 1 + r.Intn(5)
+				a.op(byte(0x5f + n))
+				for j := 0; j < n; j++ {
+					if r.Intn(2) == 0 {
+						cand = append(cand, len(a.code))
+						a.op(0x5b)
+					} else {
+						a.op(byte(1 + r.Intn(0x50)))
+					}
+				}
+			}
+		}
+		cand = append(cand, len(a.code))
+		a.op(0x5b) // landing
+		t := cand[r.Intn(len(cand))]
+		a.code[start+1], a.code[start+2] = byte(t>>8), byte(t)
+		tail(a)
+	}
+	mkRuntime := func(r *hx.Rng) []byte {
+		a := newAsm()
+		jumpLayout(r, a, func(a *asm) {
+			a.op(0x58) // PC
+			a.pushN(0)
+			a.op(0x52)
+			retTail(a, 32)
+		})
+		return a.finish()
+	}
+	mkInit := func(r *hx.Rng, runtime []byte) []byte {
+		a := newAsm()
+		jumpLayout(r, a, func(a *asm) {
+			// CODECOPY(0, <runtime offset>, len) ; RETURN(0, len)
+			a.pushN(int64(len(runtime)))
+			a.op(0x61, 0, 0) // patched below
+			fix := len(a.code) - 2
+			a.pushN(0)
+			a.op(0x39)
+			a.pushN(int64(len(runtime)))
+			a.pushN(0)
+			a.op(0xf3)
+			off := len(a.code)
+			a.code[fix], a.code[fix+1] = byte(off>>8), byte(off)
+			a.op(runtime...)
+		})
+		return a.finish()
+	}
+	nTree := 120
+	if run.Thorough() {
+		nTree = 4000
+	}
+	for i := 0; i < nTree; i++ {
+		k := 2 + rt.Intn(2)
+		inits := make([][]byte, k)
+		for j := range inits {
+			inits[j] = mkInit(rt, mkRuntime(rt))
+		}
+		for order := 0; order < 2; order++ { // the same init codes in both orders
+			seq := inits
+			if order == 1 {
+				seq = make([][]byte, k)
+				for j := range inits {
+					seq[j] = inits[k-1-j]
+				}
+			}
+			var input []byte
+			fa := newAsm()
+			for _, ic := range seq {
+				// CALLDATACOPY(0, off, len); CREATE(0, 0, len); then CALL(gas, addr, 0, 0, 0, 0, 0); POP
+				fa.pushN(int64(len(ic)))
+				fa.pushN(int64(len(input)))
+				fa.pushN(0)
+				fa.op(0x37)
+				fa.pushN(int64(len(ic)))
+				fa.pushN(0)
+				fa.pushN(0)
+				fa.op(0xf0)
+				fa.pushN(0)
+				fa.pushN(0)
+				fa.pushN(0)
+				fa.pushN(0)
+				fa.pushN(0)
+				fa.op(0x85, 0x5a, 0xf1, 0x50, 0x50) // DUP6 GAS CALL POP POP
+				input = append(input, ic...)
+			}
+			fa.op(0x00)
+			factory := fa.finish()
+			tr := &tracer{keepFrames: true}
+			run.Current("tree " + hx.Hex(factory) + " " + hx.Hex(input))
+			hx.Safe(func() string {
+				e.run(ep0.cfg, 0, factory, input, 3000000000, tr)
+				return ""
+			})
+			for idx, f := range tr.frames {
+				line := fmt.Sprintf("frame %s %s %d %s %s %s %s %d %s %s", ep0.name, ep0.gt, f.gasEntry, hx.Hex(f.code), hx.Hex(f.input),
+					hex.EncodeToString(f.addr[:]), hex.EncodeToString(f.caller[:]), idx, hx.Hex(factory), hx.Hex(input))
+				var out string
+				digest := fmt.Sprintf("d%d:%s", f.depth, strings.Join(f.top, ","))
+				switch {
+				case f.fault != "":
+					out = "fail " + f.fault
+				case f.lastOp == vm.REVERT:
+					out = fmt.Sprintf("revert %s %d %s", hx.Hex(f.ret), f.lastGas-f.lastCost, digest)
+				case f.lastOp == vm.RETURN || f.lastOp == vm.STOP:
+					out = fmt.Sprintf("ok %s %d %s", hx.Hex(f.ret), f.lastGas-f.lastCost, digest)
+				default:
+					out = "unfinished " + f.lastOp.String()
+				}
+				run.Case(line, out)
+				run.Count("frame:" + strings.Fields(out)[0])
+			}
+			run.Count(fmt.Sprintf("tree:frames=%d", len(tr.frames)))
+		}
+	}
+	lap("tree")
 	run.Finish()
 }
